@@ -94,7 +94,12 @@ def handle (op : String) (args : List String) (impl : String) : Verdict :=
   | "token", [kind, v] =>
     -- integer / float tokens from other formats
     let expect : Option (Option Dec) :=
-      if kind == "f32" then (parseNat? v).map Spec.ofF32Bits
+      -- a char is handed to visit_str: a single decimal digit is a number, anything else an error;
+      -- bool / unit / seq / map (not the arbitrary-precision number map) are type errors
+      if kind == "char" then some (match v.toList with | [c] => (if c.isDigit then some ⟨(c.toNat - 48 : Nat), 0⟩ else none) | _ => none)
+      else if kind == "bool" || kind == "unit" || kind == "seq" then some none
+      else if kind == "map" then some none
+      else if kind == "f32" then (parseNat? v).map Spec.ofF32Bits
       else if kind == "f64" then (parseNat? v).map Spec.ofF64Bits
       else (parseInt? v).map (fun i => some ⟨i, 0⟩)
     match expect with
